@@ -377,6 +377,77 @@ func checkC04(c C04Case, r *Rec) *Violation {
 		}
 		log.Reset()
 	}
+	// every split: a program with up to three variables, all of them bound, is tried under ALL
+	// available/unavailable splits (two option subsets); every definite answer is checked against Eval
+	// under the full product of the per-type completion domains (at most 64 rows are built)
+	if names := c.Tree.VarNames(); len(names) >= 1 && len(names) <= 3 && !c.Raw {
+		allBound := true
+		for _, n := range names {
+			if vd := u.Var(n); vd == nil || vd.Mode != 0 {
+				allBound = false
+			}
+		}
+		for _, mask := range []int{0, 15} {
+			if !allBound {
+				break
+			}
+			log := &Log{}
+			cc, _ := NewConfig(u, log, Build{Mask: mask})
+			e, co := SafeCompile(cc, src)
+			if co.Panic != nil || co.Err != nil {
+				return Violf("C04: compile failed: %v\nsrc=%s", co, src)
+			}
+			for sub := 0; sub < 1<<len(names)-1; sub++ { // (the split with everything available is the main part's)
+				av := map[string]bool{}
+				var un []string
+				for i, n := range names {
+					if sub&(1<<i) != 0 {
+						av[n] = true
+					} else {
+						un = append(un, n)
+					}
+				}
+				f := NewFetcher(u, cc, log)
+				f.Avail = av
+				o := Safe(func() (eval.Value, error) { return e.TryEval(f.Ctx()) })
+				if o.Panic != nil {
+					return Violf("C04: TryEval panics (every split of a small program)\nconfig=%s src=%s available=%v\n%v", maskName(mask), src, av, o)
+				}
+				if o.Err != nil || o.Val == eval.DNE {
+					continue
+				}
+				doms := make([][]interface{}, len(un))
+				idx := make([]int, len(un))
+				for i, n := range un {
+					doms[i] = domainFor(c.Tree, u.Var(n))
+				}
+				for rows := 0; rows < 64; rows++ {
+					vars := u.Bound()
+					for i, n := range un {
+						vars[n] = doms[i][idx[i]]
+					}
+					fe := &Fetcher{Vars: vars, Fail: u.Fail(), Log: &Log{}}
+					oe := Safe(func() (eval.Value, error) { return e.Eval(fe.Ctx()) })
+					if oe.Panic == nil && oe.Err == nil && !m.EqualVal(oe.Val, o.Val) {
+						return Violf("C04: TryEval gave a definite answer that fetching the unavailable variables contradicts (every split of a small program)\nconfig=%s\nsrc=%s\navailable=%v binding=%v\nTryEval=%v\ncompletion=%v\nEval=%v", maskName(mask), src, av, describeU(u), o, vars, oe)
+					}
+					k := 0
+					for k < len(idx) {
+						idx[k]++
+						if idx[k] < len(doms[k]) {
+							break
+						}
+						idx[k] = 0
+						k++
+					}
+					if k == len(idx) {
+						break
+					}
+				}
+			}
+			r.Class(fmt.Sprintf("every-split-of-%d-variables", len(names)))
+		}
+	}
 	switch {
 	case len(c.Unavail) == 0:
 		r.Class("all-available")
@@ -409,7 +480,7 @@ func SameOutcomeLoose(a, b Outcome) bool {
 
 var propC04 = Prop[C04Case]{
 	ID:    "C04",
-	Rule:  "typed random expression (failing operands allowed) x optimization subsets (4 drawn in quick, all 16 in thorough) x available/unavailable split (unbound variables are never available) x completions of the unavailable variables (full product of small per-type domains incl. the tree's own literals +-1 when <= 64, else 64 drawn); oracles: a definite TryEval answer equals the engine's Eval under every completion for which Eval succeeds; with everything available TryEval and Eval agree (same value or both an error); a definite answer is unchanged under a larger availability set; TryEvalBool mirrors TryEval; through the library's own contexts: with every value supplied to NewCtxFromVars TryEval and Eval agree, and over a map-backed context holding the available values TryEval answers as over a truthful fetcher with that availability. Non-trivial = at least one variable unavailable, TryEval definite, >= 2 completions evaluated; distinct by source + split + binding",
+	Rule:  "typed random expression (failing operands allowed) x optimization subsets (4 drawn in quick, all 16 in thorough) x available/unavailable split (unbound variables are never available) x completions of the unavailable variables (full product of small per-type domains incl. the tree's own literals +-1 when <= 64, else 64 drawn); oracles: a definite TryEval answer equals the engine's Eval under every completion for which Eval succeeds; with everything available TryEval and Eval agree (same value or both an error); a definite answer is unchanged under a larger availability set; TryEvalBool mirrors TryEval; programs with up to three (bound) variables are tried under every split, each definite answer against the full product of the completion domains; through the library's own contexts: with every value supplied to NewCtxFromVars TryEval and Eval agree, and over a map-backed context holding the available values TryEval answers as over a truthful fetcher with that availability. Non-trivial = at least one variable unavailable, TryEval definite, >= 2 completions evaluated; distinct by source + split + binding",
 	Gen:   genC04,
 	Check: checkC04,
 }
